@@ -16,7 +16,7 @@ import random
 from .. import cfgadapter, codec, common, replay, tlc, tracecheck
 
 ALL_INV = ["C01_AllValid", "C12_Fresh", "C15_Error"]
-ALL_PROP = ["C01_Readback", "C06_Unchanged", "C12_Marks", "C12_Reset", "C13_Isolated", "C02_Reproduces"]
+ALL_PROP = ["C01_Readback", "C06_Unchanged", "C12_Marks", "C12_Reset", "C13_Isolated", "C02_Reproduces", "C11_ItemsInserted"]
 
 BASE_CFG = """CONSTANTS
   Environ <- MCEnviron
@@ -388,6 +388,7 @@ def driver(cinco, desc, seed, n_traces, length):
                             ]
                             + (
                                 [{"m": "item_set", "i": rng.randint(0, 2), "k": rng.choice(["p", "q"]), "v": rng.choice([I(rng.randint(0, 10)), S("t")])}] * 3
+                                + [{"m": "item_reset", "i": rng.randint(0, 2), "k": rng.choice(["p", "q"])}, {"m": "setitem_same", "i": rng.randint(0, 2)}]
                                 if f["item"]["kind"] == "schema"
                                 else ([{"m": "slice_from", "src": "l2"}, {"m": "extend_from", "src": "l2"}] if has_l2 else [])
                             )
